@@ -31,14 +31,21 @@ def load_module(prop: str):
     return importlib.import_module(prop.lower())
 
 
-def worker(prop: str, tier: str, seed: int, w: int, workers: int, mode: str = "run"):
+def worker(prop: str, tier: str, seed: int, w: int, workers: int, mode: str = "run", budget_s=None):
     import warnings
     warnings.filterwarnings("ignore")
     mod = load_module(prop)
     ctx = Ctx(prop, tier, seed, w, workers)
     try:
         if mode == "search":
-            getattr(mod, "search", mod.run)(ctx)
+            # the failing-input search is bounded in wall-clock time: a broken obligation the search cannot turn into a
+            # concrete input is reported as `no-failing-input-found` after the budget, not after an open-ended sweep
+            if budget_s:
+                ctx.deadline = time.time() + budget_s
+            try:
+                getattr(mod, "search", mod.run)(ctx)
+            except common.SearchBudget:
+                pass
         else:
             mod.run(ctx)
         return ctx.result()
@@ -63,11 +70,11 @@ def merge(results):
     return m
 
 
-def run_workers(prop, tier, seed, workers, mode="run", timeout=None):
+def run_workers(prop, tier, seed, workers, mode="run", timeout=None, budget_s=None):
     if workers == 1:
-        return [worker(prop, tier, seed, 0, 1, mode)]
+        return [worker(prop, tier, seed, 0, 1, mode, budget_s)]
     with cf.ProcessPoolExecutor(max_workers=workers) as ex:
-        futs = [ex.submit(worker, prop, tier, seed, w, workers, mode) for w in range(workers)]
+        futs = [ex.submit(worker, prop, tier, seed, w, workers, mode, budget_s) for w in range(workers)]
         return [f.result(timeout=timeout) for f in futs]
 
 
@@ -200,7 +207,8 @@ def check(prop: str, tier: str, seed: int) -> int:
     needs_search = bool(build["broken"] or m["disagreements"]) and not unlisted
     if needs_search:
         # failing-input search on the real code: oracle over fresh cases with other seeds
-        sres = run_workers(prop, "thorough", seed + 7919, 8, mode="search")
+        budget = float(os.environ.get("VERIF_SEARCH_BUDGET_S", "300" if tier == "quick" else "1500"))
+        sres = run_workers(prop, "thorough", seed + 7919, 8, mode="search", budget_s=budget)
         sm = merge(sres)
         for f in sm["failures"]:
             if f["key"] in known:
